@@ -1,14 +1,19 @@
 ------------------------------ MODULE MC_C03 ------------------------------
+(* Generator of flattened struct inputs: members with child paths in every order (adversarial prefix names a / ab),
+   struct-level ghosts addressed by child path; plus the algorithm model's prediction for each input. *)
 EXTENDS O2OFlatten, Json
-CONSTANTS MaxMembers
-PathsDef == { <<>>, <<"a">>, <<"ab">>, <<"a","c">>, <<"a","c","d">>, <<"ab","e">> }      \* "a"/"ab": adversarial prefix names
-Items == {"none", "expr"}
+CONSTANTS MaxMembers, MaxGhosts, AllItems
+PathsDef == { <<>>, <<"a">>, <<"ab">>, <<"a","c">>, <<"a","c","d">>, <<"ab","e">> }
+GPathsDef == { <<"a">>, <<"a","c">>, <<"g">> }       \* ghosts in a node members also use, and in a node only ghosts use
+Items == {"none", "expr", "ren"}
 VARIABLE in
-Init == in = [ms |-> <<>>]
+Init == \E gs \in UNION {[1..n -> GPathsDef] : n \in 0..MaxGhosts} : in = [ms |-> <<>>, gs |-> [j \in DOMAIN gs |-> [path |-> gs[j]]]]
 Add(p, it) == Len(in.ms) < MaxMembers /\ in' = [in EXCEPT !.ms = Append(@, [path |-> p, it |-> it])]
 Next == \E p \in PathsDef, it \in Items : Add(p, it)
 Spec == Init /\ [][Next]_in
-\* to keep the quick scope small: items vary only on the first member
-Canon == \A i \in DOMAIN in.ms : i > 1 => in.ms[i].it = "none"
-Emit == (WellFormed(in) /\ Canon) => PrintT(<<"CASE", ToJson(in)>>)
+\* items vary on every member only when AllItems; otherwise on the first member only (keeps the quick scope small)
+Canon == AllItems \/ \A i \in DOMAIN in.ms : i > 1 => in.ms[i].it = "none"
+Emit == (WellFormed(in) /\ Canon) => PrintT(<<"CASE", ToJson([in EXCEPT !.gs = in.gs] @@ [dup |-> DupConstruct(FieldsOf(in))])>>)
+\* design-level: every leaf of the counterpart tree is designated at most once; into writes every leaf of D
+NoClash == WellFormed(in) => \A a, b \in IntoExp(in) : a.leaf = b.leaf => a = b
 =============================================================================
